@@ -15,7 +15,7 @@
 
 Rules (ctx): C11.NoPanic, C11.ParseAgrees, C11.MessageAgrees, C11.UnknownSkipped, C11.SerializeAgrees
 ("" | "both-ext"), C11.RoundTrip ("" | "both-ext" | "sack-len")."""
-import json, os, hashlib, shutil
+import json, os, re, hashlib, shutil
 from concurrent.futures import ThreadPoolExecutor
 from . import core
 
@@ -65,8 +65,22 @@ def extract_cases(out, path):
     return [json.loads(s) for s in lines]
 
 
+class Hang(Exception):
+    """A call into the parser / serialiser did not return (the driver's watchdog names the call)."""
+    def __init__(self, at):
+        super().__init__(f"call {at} did not return")
+        self.at = at
+
+
+def _hang_of(p):
+    m = re.search(r"HANG at=(\d+)", p.stdout or "")
+    return int(m.group(1)) if (p.returncode == 3 and m) else None
+
+
 def run_replay(cases_path, answers_path):
     p = core.sh([BIN, "replay", cases_path, answers_path], timeout=600, check=False)
+    if _hang_of(p) is not None:
+        raise Hang(_hang_of(p))
     if p.returncode != 0:
         raise core.ToolError(f"unit_wire replay failed ({p.returncode}):\n{p.stdout[-3000:]}")
     with open(answers_path) as f:
@@ -75,6 +89,8 @@ def run_replay(cases_path, answers_path):
 
 def run_record(seed, n, path):
     p = core.sh([BIN, "record", str(seed), str(n), path], timeout=600, check=False)
+    if _hang_of(p) is not None:
+        raise Hang(_hang_of(p))
     if p.returncode != 0:
         raise core.ToolError(f"unit_wire record failed ({p.returncode}):\n{p.stdout[-3000:]}")
 
@@ -184,7 +200,16 @@ def run(tier, seed):
         raise core.ToolError(f"MCWire emitted only {len(cases)} cases")
 
     # 2. spec -> impl
-    answers = run_replay(cases_path, os.path.join(d, "answers.ndjson"))
+    try:
+        answers = run_replay(cases_path, os.path.join(d, "answers.ndjson"))
+    except Hang as h:
+        # C11 "accepts exactly the byte strings that are well-formed": the parser must give an answer at all
+        c = cases[h.at - 1]
+        r.cov["C11.Terminates"] = h.at
+        r.violations.append(({"line": h.at, "rule": "C11.Terminates", "ctx": "replay", "ep": ""},
+                             {"kind": "case", "case": c, "answer": {"hang": True}}, cases_path))
+        r.scripts += h.at
+        return r.finish(rule_text="the call did not return", required_cov=[])
     if len(answers) != len(cases):
         raise core.ToolError(f"replay answered {len(answers)} of {len(cases)} cases")
     kept, totals = {}, {}
@@ -221,7 +246,10 @@ def run(tier, seed):
     def one(sh):
         s, n = sh
         tp = os.path.join(d, f"rec_{s}.ndjson")
-        run_record(s, n, tp)
+        try:
+            run_record(s, n, tp)
+        except Hang as h:
+            return {"hang": h.at, "trace": tp}, sh
         v = core.tlc_trace(tp, spec="WireTrace", tag=f"c11_tr_{tier}_{s}", timeout=600)
         return v, sh
 
@@ -229,6 +257,10 @@ def run(tier, seed):
         verdicts = list(ex.map(one, shards))
     tkept = {}
     for v, (s, n) in verdicts:
+        if "hang" in v:
+            r.violations.append(({"line": v["hang"], "rule": "C11.Terminates", "ctx": "record", "ep": ""},
+                                 {"kind": "record", "seed": s, "n": n, "line": v["hang"]}, v["trace"]))
+            continue
         if v["lines"] != n:
             raise core.ToolError(f"trace {v['trace']}: {v['lines']} lines validated, {n} recorded")
         r.traces += 1
@@ -274,16 +306,22 @@ def replay(path):
         cp = os.path.join(d, "case.ndjson")
         with open(cp, "w") as f:
             f.write(json.dumps(sc["case"]) + "\n")
-        a = run_replay(cp, os.path.join(d, "answer.ndjson"))[0]
-        broken = [(rule, ctx) for rule, ctx, app, holds in judge(sc["case"], a) if app and not holds]
+        try:
+            a = run_replay(cp, os.path.join(d, "answer.ndjson"))[0]
+            broken = [(rule, ctx) for rule, ctx, app, holds in judge(sc["case"], a) if app and not holds]
+        except Hang:
+            a, broken = {"hang": True}, [("C11.Terminates", "replay")]
         print("case:", json.dumps(sc["case"])[:2000])
         print("answer:", json.dumps(a)[:2000])
     else:
         tp = os.path.join(d, "rec.ndjson")
-        run_record(sc["seed"], sc["n"], tp)
-        vd = core.tlc_trace(tp, spec="WireTrace", tag="c11_replay", timeout=600)
-        broken = [(x["rule"], x["ctx"]) for x in vd["viol"] if x["line"] == sc["line"]]
-        print("line:", core.trace_line(tp, sc["line"])[:2000])
+        try:
+            run_record(sc["seed"], sc["n"], tp)
+            vd = core.tlc_trace(tp, spec="WireTrace", tag="c11_replay", timeout=600)
+            broken = [(x["rule"], x["ctx"]) for x in vd["viol"] if x["line"] == sc["line"]]
+            print("line:", core.trace_line(tp, sc["line"])[:2000])
+        except Hang as h:
+            broken = [("C11.Terminates", "record")] if h.at == sc["line"] else []
     print("broken rules:", broken)
     if (want["rule"], want.get("ctx", "")) in broken:
         print(f"VIOLATION property={PID} replay={path}")
